@@ -1,6 +1,6 @@
 PID = "C17"
 WORKER = "w_c17"
-HEADER = "From Coq Require Import List ZArith QArith Qcanon.\nFrom Dimod Require Import Base.Util Model.Poly Model.Comb Gen.Gen_Gates Gen.Gen_Combinations Model.Gates Model.Knap Model.MultCircuit Model.Qap Model.Magic Model.Sat Model.ChkC17.\nImport ListNotations."
+HEADER = "From Coq Require Import List ZArith QArith Qcanon.\nFrom Dimod Require Import Base.Util Model.Poly Model.Comb Gen.Gen_Gates Gen.Gen_Combinations Gen.Gen_Graph Model.Gates Model.Knap Model.MultCircuit Model.Qap Model.Magic Model.Sat Model.ChkC17.\nImport ListNotations."
 CHECK_FN = "check"
 N_QUICK = 1600
 N_THOROUGH = 30000
@@ -19,6 +19,7 @@ RULE = ("gates (and/or/xor/halfadder/fulladder) with random distinct labels (int
         "instances; random generators (uniform, randint, gnp, gnm, ran_r, doped, power_r) over all graph-argument forms; "
         "non-trivial per kind as set by the worker; distinct by canonical JSON of the case")
 TRUSTED = ["translators/gates_tables.py (fail-closed ast translator: gates.py -> Gen/Gen_Gates.v, re-run before every build)",
+           "translators/graph_constants.py (fail-closed ast translator: shapes, literals and keyword defaults of the independent-set generators -> Gen/Gen_Graph.v)",
            "translators/combinations_rule.py (fail-closed ast translator: the coefficient rule of combinations -> Gen/Gen_Combinations.v)",
            "model: coq/theories/Model/Gates.v, Comb.v (combinations_energy), Knap.v (knapsack / multi-knapsack / bin packing), "
            "MultCircuit.v (wiring of multiplication_circuit), ChkC17.v (hand written, tied by this correspondence)",
